@@ -34,7 +34,8 @@ def floors(tier):
             "no_dependency": 20 if q else 300, "chain_ge_3": 300 if q else 4000, "leading_load": 30 if q else 400,
             "last_is_most_expensive": 100 if q else 1500, "monitor:get_critical_path": 4000 if q else 55000, "line_number_gaps": 300 if q else 4000,
             "report_cp_column_checked": 1200 if q else 18000, "store_load_kernels": 80 if q else 1000, "dict_first_checked": 1200 if q else 18000, "flag_graph_compared": 150 if q else 2500,
-            "edge_weights_checked": 8000 if q else 100000}
+            "edge_weights_checked": 8000 if q else 100000,
+            "hidden_load_models": 20 if q else 300, "hidden_load_chains": 40 if q else 600, "hidden_composed_loads": 40 if q else 600}
 
 
 def plan(tier, seed):
@@ -222,6 +223,21 @@ def judge_once(forms, dg, R, case):
             break
     total = sum(float(x.latency_cp) for x in cp)
     chain = [x.line_number for x in cp]
+    # the reference chain lengths are taken on the observed graph completed with the memory-load stage of every instruction whose
+    # load is modelled separately (latency > latency without load), so a stage the graph builder left out is still counted once
+    obs_nodes, obs_edges = nodes, edges
+    from osaca.semantics import INSTR_FLAGS as _F
+
+    missing_stage = []
+    for f in forms:
+        ln = f.line_number
+        if _F.HAS_LD in f.flags and _F.LD not in f.flags and lat[ln] - wo[ln] > EPS and (ln + 0.1) not in obs_nodes:
+            missing_stage.append(ln)
+    if missing_stage:
+        nodes = list(obs_nodes) + [ln + 0.1 for ln in missing_stage]
+        edges = dict(obs_edges)
+        for ln in missing_stage:
+            edges[(ln + 0.1, ln)] = lat[ln] - wo[ln]
     cpb, cpa = RG.critical_path_bounds(nodes, edges, lat, wo)
     info = "reported %.3f over lines %s; longest chain %.3f (%.3f if the last instruction's own load counts)" % (total, chain, cpb, cpa)
     maxlat = max(lat.values()) if lat else 0.0
@@ -244,6 +260,7 @@ def judge_once(forms, dg, R, case):
         R.violation(key, "%s; e.g. chain %s" % (info, path), case)
     elif total > cpa + EPS:
         R.violation("too-long", info, case)
+    nodes, edges = obs_nodes, obs_edges
     # the marked lines form a chain of that length
     if chain != sorted(chain) or len(set(chain)) != len(chain):
         R.violation("marked/not-in-program-order", "marked lines %s" % chain, case)
@@ -301,23 +318,60 @@ def run_synth(spec, R):
     with gen_model.ScratchDir("c04") as d:
         for mi in range(spec["models"]):
             mseed = rng.getrandbits(48)
-            mrng = random.Random(mseed)
-            m, isa_db, vocab = D.dep_model(mrng, isa)
+            m, isa_db, vocab, mrng = synth_model(mseed, isa)
             path, ipath = os.path.join(d, "m%d.yml" % mi), os.path.join(d, "i%d.yml" % mi)
             open(path, "w").write(gen_model.model_yaml(m))
             open(ipath, "w").write(gen_model.model_yaml(isa_db))
             for k in range(spec["kernels"]):
                 synth_case(isa, vocab, path, ipath, mseed, mrng.getrandbits(48), R)
+            if m["hidden_loads"]:
+                # models that hide loads behind stores (throughput only): one fixed-shape chain per model that starts at a hidden,
+                # composed load, so that this class does not depend on what the random kernels happen to contain
+                R.count("hidden_load_models")
+                for k in range(2):
+                    synth_case(isa, vocab, path, ipath, mseed, mrng.getrandbits(48), R, shape="hidden-load-chain")
             MachineModel._runtime_cache.pop(path, None)
             MachineModel._runtime_cache.pop(ipath, None)
             for fn in os.listdir(d):
                 os.unlink(os.path.join(d, fn))
 
 
-def synth_case(isa, vocab, path, ipath, mseed, kseed, R, sample=True):
+def synth_model(mseed, isa):
+    """Synthetic model of a seed; every other one sets hidden_loads (a user-model option no shipped model uses: it hides the
+    port pressure of loads behind stores and must leave every latency, hence the critical path, alone)."""
+    mrng = random.Random(mseed)
+    m, isa_db, vocab = D.dep_model(mrng, isa)
+    m["hidden_loads"] = bool((mseed >> 7) & 1)
+    return m, isa_db, vocab, mrng
+
+
+def hidden_load_chain(krng, isa, vocab):
+    """composed load (register form + separate load node) -> register consumer -> store of the result"""
+    i = krng.choice([0, 1])
+    byname = {v["name"]: v for v in vocab}
+    lc, st = byname.get("lc%da" % i), byname.get("st%da" % i)
+    if lc is None or st is None:
+        return None
+    cls = [o for o in lc["ops"] if o["kind"] == "reg"][0]
+    pool = D.Pool(krng, isa, ng=3, nv=2)
+    r = pool.reg(krng, cls["cls"], False, cls.get("cls_pat"))
+    cons = [v for v in vocab if v["ops"] and all(o["kind"] == "reg" and o["cls"] == cls["cls"] and not o.get("wide") for o in v["ops"])
+            and any("s" in o["role"] for o in v["ops"]) and not v["zero"] and not v.get("bump")]
+    out = [D.instantiate(krng, isa, lc, pool, regs=[r])]
+    if cons:
+        c = krng.choice(cons)
+        out.append(D.instantiate(krng, isa, c, pool, regs=[r] * len(c["ops"])))
+    out.append(D.instantiate(krng, isa, st, pool, regs=[r]))
+    return out
+
+
+def synth_case(isa, vocab, path, ipath, mseed, kseed, R, sample=True, shape=None):
     krng = random.Random(kseed)
     n = krng.choice([1, 2, 3, 4, 5, 6, 8, 10, 12])
-    if krng.random() < 0.15:
+    kernel_ast = hidden_load_chain(krng, isa, vocab) if shape == "hidden-load-chain" else None
+    if kernel_ast is not None:
+        R.count("hidden_load_chains")
+    elif krng.random() < 0.15:
         # kernels without any dependency: every instruction on registers of its own
         pool = D.Pool(krng, isa, ng=6, nv=4)
         kernel_ast = []
@@ -337,6 +391,8 @@ def synth_case(isa, vocab, path, ipath, mseed, kseed, R, sample=True):
     flags = krng.random() < 0.3
     text = gappy(krng, [i["text"] for i in kernel_ast])
     case = {"kind": "synth", "isa": isa, "model_seed": mseed, "kernel_seed": kseed, "kernel": text, "flags": flags}
+    if shape:
+        case["shape"] = shape
     try:
         with time_limit(60):
             forms, dg, mm = D.analyse(isa, path, ipath, text, flags=flags, timeout=0 if len(kernel_ast) > 8 else -1)
@@ -349,7 +405,12 @@ def synth_case(isa, vocab, path, ipath, mseed, kseed, R, sample=True):
         R.case()
         return
     from osaca.frontend import Frontend
+    from osaca.semantics.hw_model import MachineModel  # noqa
+    from osaca.semantics import INSTR_FLAGS
 
+    nh = sum(1 for f in forms if INSTR_FLAGS.HIDDEN_LD in f.flags and INSTR_FLAGS.HAS_LD in f.flags and INSTR_FLAGS.LD not in f.flags)
+    if nh:
+        R.count("hidden_composed_loads", nh)
     nt = judge(forms, dg, R, case, frontend=Frontend(path_to_yaml=path))
     if any(b.line_number - a.line_number > 1 for a, b in zip(forms, forms[1:])) or forms[0].line_number > 1:
         R.count("line_number_gaps")
@@ -435,13 +496,12 @@ def run_shard(spec, R):
 def replay(case, R):
     if case["kind"] == "synth":
         isa = case["isa"]
-        mrng = random.Random(case["model_seed"])
-        m, isa_db, vocab = D.dep_model(mrng, isa)
+        m, isa_db, vocab, mrng = synth_model(case["model_seed"], isa)
         with gen_model.ScratchDir("c04r") as d:
             path, ipath = os.path.join(d, "m.yml"), os.path.join(d, "i.yml")
             open(path, "w").write(gen_model.model_yaml(m))
             open(ipath, "w").write(gen_model.model_yaml(isa_db))
-            synth_case(isa, vocab, path, ipath, case["model_seed"], case["kernel_seed"], R, sample=False)
+            synth_case(isa, vocab, path, ipath, case["model_seed"], case["kernel_seed"], R, sample=False, shape=case.get("shape"))
     elif case["kind"] == "curated":
         isa = isolate.isa_of(case["arch"])
         curated_case(case["arch"], isa, D.curated_vocab(isa), case["kernel_seed"], R)
